@@ -356,6 +356,11 @@ class ndarray:
     def __repr__(self):
         return '<ndarray %s>' % (self.shape,)
 
+    def __getattr__(self, n):
+        if n.startswith('_') or n in ('d', 'shape', 'dtype', 'full', 'mask'):
+            raise AttributeError(n)
+        raise ShimGap('ndarray.' + n)
+
 
 def _symbolic_mask(key, n):
     if not (isinstance(key, (ndarray, list)) or _is_series(key)):
@@ -423,8 +428,21 @@ def float_to_int(x):
     return SymInt(z3.If(v >= 0, z3.ToInt(v), -z3.ToInt(-v)))
 
 
+def _frag_number(x):
+    """A str made of exactly one formatted-integer atom (e.g. the digits of a METAR code) -> its value."""
+    if isinstance(x, str) and core._TOK_L in x:
+        parts = core.decode_fragments(x)
+        if len(parts) == 1 and not isinstance(parts[0], str):
+            return parts[0][0]
+        raise ShimGap('number parsed from a string mixing text and formatted symbolic integers')
+    return None
+
+
 def f_cast(x, t):
     name = getattr(t, '__name__', t)
+    fn = _frag_number(x)
+    if fn is not None:
+        x = fn
     if t is float or name in ('float', 'float64', 'float_'):
         if isinstance(x, (SymFloat, SymFP)):
             return SymFP(x.e) if isinstance(x, SymFPInt) else x
